@@ -95,6 +95,60 @@ def check_pipelines(prog: Program, res: Result) -> None:
            sample=repr(out))
 
 
+def _axis_of(e: ast.AST, img: str):
+    """-2 / -1 when `e` is that side of `img`'s shape: img.shape[-2], img.shape[-2:][0], img.size(-2)."""
+    def ci(x):
+        if isinstance(x, ast.UnaryOp) and isinstance(x.op, ast.USub) and isinstance(x.operand, ast.Constant) and isinstance(x.operand.value, int):
+            return -x.operand.value
+        return x.value if isinstance(x, ast.Constant) and isinstance(x.value, int) and not isinstance(x.value, bool) else None
+    if isinstance(e, ast.Call) and isinstance(e.func, ast.Attribute) and e.func.attr == "size" and norm(e.func.value) == img and len(e.args) == 1:
+        return ci(e.args[0]) if ci(e.args[0]) in (-2, -1) else None
+    if not isinstance(e, ast.Subscript):
+        return None
+    k = ci(e.slice)
+    if norm(e.value) == f"{img}.shape":
+        return k if k in (-2, -1) else None
+    b = e.value
+    if isinstance(b, ast.Subscript) and norm(b.value) == f"{img}.shape" and isinstance(b.slice, ast.Slice) and b.slice.upper is None and b.slice.step is None \
+            and b.slice.lower is not None and ci(b.slice.lower) == -2 and k in (0, 1, -2, -1):
+        return {0: -2, 1: -1, -2: -2, -1: -1}[k]
+    return None
+
+
+def _is_scaled_resize(v: ast.AST, img: str, sc: str) -> bool:
+    """v is  <...>.resize(img, size=[int(H * sc), int(W * sc)])  with H, W the last two sides of img (in that order)."""
+    if not (isinstance(v, ast.Call) and norm(v.func).split(".")[-1] == "resize"):
+        return False
+    a0, size = astq.call_arg(v, 0, "img"), astq.call_arg(v, 1, "size")
+    if a0 is None or norm(a0) != img or not (isinstance(size, (ast.List, ast.Tuple)) and len(size.elts) == 2):
+        return False
+    for e, ax in zip(size.elts, (-2, -1)):
+        if not (isinstance(e, ast.Call) and norm(e.func) == "int" and len(e.args) == 1 and isinstance(e.args[0], ast.BinOp) and isinstance(e.args[0].op, ast.Mult)):
+            return False
+        l, r = e.args[0].left, e.args[0].right
+        if not ((norm(r) == sc and _axis_of(l, img) == ax) or (norm(l) == sc and _axis_of(r, img) == ax)):
+            return False
+    return True
+
+
+def _scale_is_one(conds, sc: str):
+    """True / False when the branch decisions say `sc == 1` / `sc != 1`; None when they say something else."""
+    verdict = None
+    for t, taken in conds:
+        if not (isinstance(t, ast.Compare) and len(t.ops) == 1 and isinstance(t.ops[0], (ast.Eq, ast.NotEq))):
+            return None
+        a, b = t.left, t.comparators[0]
+        if norm(a) != sc:
+            a, b = b, a
+        if norm(a) != sc or astq.const_value(b) != 1:
+            return None
+        is_one = taken if isinstance(t.ops[0], ast.Eq) else not taken
+        if verdict is not None and verdict != is_one:
+            return None
+        verdict = is_one
+    return verdict
+
+
 def check_contract_premises(prog: Program, res: Result) -> None:
     R = "C04-leaf"
     fi = prog.func(f"{RS}:apply_sizematcher")
@@ -170,15 +224,32 @@ def check_contract_premises(prog: Program, res: Result) -> None:
             res.ob(R, seen_r <= {H, W, f"min({H}, {W})", f"min({W}, {H})"} and len(seen_r) >= 1, fi.qualname, "ratios = max/actual", f"ratios are {sorted(seen_r)}", fi.where)
     ri = prog.func(f"{RS}:resize_image")
     res.touch(ri)
-    ns = [s for s in walk_function(ri.node) if isinstance(s, ast.Assign) and norm(s.targets[0]) == "new_size"]
-    ok = len(ns) == 1 and norm(ns[0].value) == "[int(img_height * scale), int(img_width * scale)]"
-    hw = [s for s in walk_function(ri.node) if isinstance(s, ast.Assign) and norm(s.value) == "image.shape[-2:]"]
-    ok = ok and len(hw) == 1 and [norm(e) for e in hw[0].targets[0].elts] == ["img_height", "img_width"]
-    res.ob(R, ok, ri.qualname, "new size = (H*scale, W*scale)", f"resize_image computes `{short(ns[0].value, 60) if ns else '?'}`", ri.where)
+    pr = astq.path_returns(ri.node)
+    ok = bool(pr) and all(v is not None and _is_scaled_resize(v, ri.params[0], ri.params[1]) for _, v in pr)
+    res.ob(R, ok, ri.qualname, "new size = (H*scale, W*scale)", f"resize_image returns `{short(pr[0][1], 90) if pr and pr[0][1] is not None else '?'}`, not the image resized to "
+           "[int(H*scale), int(W*scale)]", ri.where)
     ar = prog.func(f"{RS}:apply_resizer")
-    g = [n for n in walk_function(ar.node) if isinstance(n, ast.If)]
-    ok = len(g) == 1 and norm(g[0].test) == "scale != 1.0" and not g[0].orelse
-    res.ob(R, ok, ar.qualname, "identity when scale == 1 (guard idiom)", "apply_resizer's guard is not `scale != 1.0` without an else", ar.where)
+    pa = astq.path_returns(ar.node)
+    img, pts, sc = ar.params[:3]
+    ok, why = bool(pa), "apply_resizer is not a loop-free function of (image, instances, scale)"
+    for conds, v in pa or []:
+        unit = _scale_is_one(conds, sc)
+        if unit is None or not (isinstance(v, ast.Tuple) and len(v.elts) == 2):
+            ok, why = False, f"apply_resizer branches on something other than `{sc} == 1` / returns no (image, instances) pair"
+            break
+        vi, vp = v.elts
+        if unit:
+            good = norm(vi) == img and norm(vp) == pts
+            bad = f"with {sc} == 1 apply_resizer returns `{short(v, 80)}`, not its inputs"
+        else:
+            direct = _is_scaled_resize(vi, img, sc)
+            via = isinstance(vi, ast.Call) and norm(vi.func).split(".")[-1] == "resize_image" and [norm(a) for a in (astq.call_arg(vi, 0, ri.params[0]), astq.call_arg(vi, 1, ri.params[1]))] == [img, sc]
+            good = (direct or via) and astq.same_product(vp, pts, sc)
+            bad = f"with {sc} != 1 apply_resizer returns `{short(v, 100)}`, not (image resized by {sc}, {pts} * {sc})"
+        if not good:
+            ok, why = False, bad
+            break
+    res.ob(R, ok, ar.qualname, "identity when scale == 1, else (resized image, instances * scale)", why, ar.where)
     ap = prog.func(f"{RS}:find_padding_for_stride")
     res.touch(ap)
     rts = [n for n in walk_function(ap.node) if isinstance(n, ast.Return) and isinstance(n.value, ast.Tuple) and len(n.value.elts) == 2]
@@ -277,7 +348,7 @@ def check_size(prog: Program, res: Result) -> None:
     # crop_bboxes derives the size from the boxes themselves
     cb = prog.func("sleap_nn.inference.peak_finding:crop_bboxes")
     cc = [c for c, q in prog.calls_in(cb) if q == "kornia.geometry.transform.crop_and_resize"]
-    szx = astq.xnorm(cb.node, astq.call_arg(cc[0], 2, "size")).replace(" ", "") if len(cc) == 1 else ""
+    szx = norm(astq.flat_subs(astq.expand_at(cb.node, astq.call_arg(cc[0], 2, "size"), enclosing_stmt(cc[0])))).replace(" ", "") if len(cc) == 1 else ""
     d = {"box_size": szx}
     # corners are listed clockwise from the top-left: 0 TL, 1 TR, 2 BR, 3 BL.  The height is the |y| extent of a vertical
     # side, the width the |x| extent of a horizontal side, of the FIRST box, plus one (both ends inclusive).
